@@ -326,6 +326,39 @@ fn constructs(report: &Report, full: bool) {
             }),
         ));
     }
+    {
+        // every pool value as a container, every pool value as an index, one lookup per template (a failing lookup
+        // must not hide the next one), plus literal negative indexes around the array lengths in the pool (0, 1, 3, 25, 40)
+        let vals = vals.clone();
+        const SHAPES: [&str; 14] = [
+            "{{ c[i] }}",
+            "{% if c[i] %}T{% else %}F{% endif %}",
+            "{{ c[i][i] }}",
+            "{% for e in c[i] %}{{ e }}{% endfor %}",
+            "{% assign v = c[i] %}{{ v }}",
+            "{{ c.first[i] }}",
+            "{{ c[i].size }}",
+            "{{ c[-1] }}",
+            "{{ c[-2] }}",
+            "{{ c[-4] }}",
+            "{{ c[-26] }}",
+            "{{ c[-41] }}",
+            "{{ c.last[-1] }}",
+            "{% if c[-1] %}T{% endif %}{% unless c[-4] %}U{% endunless %}",
+        ];
+        fams.push((
+            "index paths: container x index".into(),
+            n * n * SHAPES.len() as u64,
+            Box::new(move |i| {
+                let d = decode(i, &[n, n, SHAPES.len() as u64]);
+                if d[2] >= 7 && d[1] != 0 {
+                    return None; // the literal-index shapes do not use `i`
+                }
+                let data = V::obj(&[("c", vals[d[0] as usize].clone()), ("i", vals[d[1] as usize].clone())]);
+                Some((SHAPES[d[2] as usize].to_string(), data))
+            }),
+        ));
+    }
     for (name, total, build) in fams {
         let cases = AtomicU64::new(0);
         let nt0 = nontriv.load(Ordering::Relaxed);
